@@ -19,6 +19,7 @@ from ..resolve import resolver
 from ..rules import undef
 from ..rules.selfattrs import SelfAttrs
 
+KEEP_LOGGING = True  # attribute reads inside log calls on the resume path are reads like any other
 TECHNIQUE = "R-PICKLE: extraction of dropped/nulled/added keys from every __getstate__, interprocedural must-write-before-read of self attributes along the resume entry points, who-reads pickle-only attributes; R-WRITERS on cumulative counters; R-ORDER over sibling loops for stale-after-unpickle fields; R-UNDEF on the resume call tree"
 
 GETSTATE_CLASSES = [
